@@ -219,6 +219,12 @@ def main(prop_module, argv):
         v = sorted(violations, key=lambda r: r["idx"])[0]
         clause = v["violation"]["clause"]
         small = shrink_case(prop, v["case"], clause) if hasattr(prop, "shrink") else v["case"]
+        sched_info = None
+        if hasattr(prop, "shrink_schedule"):
+            try:
+                small, sched_info = prop.shrink_schedule(small, clause)
+            except Exception as ex:          # minimisation is best effort: the seeded case is a valid replay on its own
+                sched_info = dict(error=str(ex)[:200])
         out = prop.run(small, fresh=True)
         if not (out.violation and out.violation["clause"] == clause):
             # fall back to the unshrunk case; if that does not reproduce in a fresh process it is nondeterminism (my bug)
@@ -227,10 +233,12 @@ def main(prop_module, argv):
         path = os.path.join(VERIF, "replays", "%s-%d.json" % (prop.id, v["seed"]))
         if out.violation and out.violation["clause"] == clause:
             json.dump(dict(property=prop.id, clause=clause, seed=v["seed"], detail=out.violation.get("detail"), case=small,
-                           scenario=out.sample, digest=out.digest), open(path, "w"), indent=1)
+                           scenario=out.sample, digest=out.digest, schedule=sched_info), open(path, "w"), indent=1)
             print("VIOLATION property=%s replay=%s" % (prop.id, path))
             print("  clause: %s" % clause)
             print("  detail: %s" % str(out.violation.get("detail"))[:1500])
+            if sched_info:
+                print("  schedule: %s" % json.dumps(sched_info))
             replay_paths.append(path)
         else:
             print("HARNESS_ERROR property=%s violation of clause %s at seed %d did not reproduce in a fresh process" % (prop.id, clause, v["seed"]))
